@@ -368,8 +368,8 @@ func duringFlush(nwal, point int) spec {
 // fixed history: every byte prefix of one log record (the overwrite after a flush), 2 partitions
 func tornSweep() spec {
 	ops := []Op{w1(0, 1, 41), w1(0, 2, 42), {K: "F"}, w1(0, 1, 43),
-		{K: "W", Rows: []tsdrv.Row{{S: 0, T: 1, F: []tsdrv.FV{{F: 0, V: 44}, {F: 1, V: 44}}}, {S: 1, T: 2, F: []tsdrv.FV{{F: 0, V: 45}, {F: 3, V: 2}}}}}}
-	return spec{nser: 2, nwal: 2, nmst: 1, tornAll: 4, ops: ops}
+		{K: "W", Rows: []tsdrv.Row{{S: 0, T: 1, F: []tsdrv.FV{{F: 0, V: 44}, {F: 1, V: 44}}}}}}
+	return spec{nser: 1, nwal: 2, nmst: 1, tornAll: 4, ops: ops}
 }
 
 // fixed history for asynchronous replay: two measurements, flushed and unflushed rows of both, the images are opened
@@ -541,7 +541,7 @@ func (rn *runner) runHistory(idx int, sp spec, r *gen.Rand) *History {
 	nimg := 0
 	capImg := 14
 	if dense {
-		capImg = 40
+		capImg = 30
 	}
 	if !quick {
 		capImg = 400
@@ -1071,6 +1071,7 @@ func (rn *runner) runHistory(idx int, sp spec, r *gen.Rand) *History {
 	}
 	extraVal := int64(900000)
 	var subNo []int
+	var liveOps []int // write ops with a record in the live log of the image being recovered
 	check := func(im *Image, d string, record, async bool, nfiles int) (subs []string) {
 		defer func() {
 			if e := recover(); e != nil {
@@ -1122,6 +1123,12 @@ func (rn *runner) runHistory(idx int, sp spec, r *gen.Rand) *History {
 				}
 				if r.Chance(2, 3) || dense {
 					s, t := r.Intn(nser), r.Intn(NT)
+					if len(liveOps) > 0 && (dense || r.Chance(1, 2)) {
+						// overwrite a cell that has a record in the live log (the replay will meet the newer write)
+						if rows := ops[liveOps[r.Intn(len(liveOps))]].Rows; len(rows) > 0 {
+							s, t = rows[0].S, rows[0].T
+						}
+					}
 					ai.Extra = []tsdrv.Row{{S: s, T: t, F: []tsdrv.FV{{F: 0, V: extraVal}}}}
 					extraVal++
 					ai.ExtraAcked = writeRows(s2, nmst, ai.Extra) == nil
@@ -1206,6 +1213,10 @@ func (rn *runner) runHistory(idx int, sp spec, r *gen.Rand) *History {
 			wb = walBytes(p.dir, nwal, p.wal, p.tornRel, im.Torn)
 		}
 		async := sp.async && im.Torn < 0
+		liveOps = liveOps[:0]
+		for _, pp := range parts {
+			liveOps = append(liveOps, pp...)
+		}
 		subs := check(&im, p.dir, !async && !(sp.tornAll >= 0 && im.Torn >= 0), async, nfiles)
 		im.Parts, im.Epochs = parts, epochs
 		im.WalBytes = wb
